@@ -160,6 +160,13 @@ class C04(Prop):
                 op, lit, tag = rng.choice([("~", a + b, "misses"), ("~", b + a, "misses"), ("~", a + a, "misses"), ("!~", a + b, "resolves"),
                                            ("~", a, "resolves"), ("~", c, "resolves"), ("!~", c, "resolves")])
                 xp, pred = sp % (op, lit), None
+            if root == "dict" and rng.random() < 0.025:
+                # a text() condition as the LAST step: the path resolves iff the node meets it (nothing follows that could miss)
+                t = {"status": "open", "r": [{"id": 1}, {"id": 2}], "a": t}
+                xp, tag = rng.choice([("status[text()=closed]", "misses"), ("status[text()!=open]", "misses"), ("status[text()~zz]", "misses"),
+                                      ("r[*]/id[text()=9]", "misses"), ("r[0]/id[text()=9]", "misses"), ("/status[text()='closed']", "misses"),
+                                      ("status[text()=open]", "resolves"), ("r[1]/id[text()=2]", "resolves"), ("status[text()~pe]", "resolves")])
+                pred = None
             if rng.random() < 0.1:
                 xp = "?" + xp
             if rng.random() < 0.01:
